@@ -1,19 +1,28 @@
 #!/usr/bin/env python3
-"""tools/seed_eval.py <src_dir> <seed_id> [--no-suite]
+"""tools/seed_eval.py <src_dir> <seed_id> [--no-suite] [--on-repo] [--thorough] [--recheck]
 Confirm an independently written breaking change and record it under /verif/seeded/<seed_id>/:
  1. scratch worktree of /repo (outside /repo and /verif), apply patch.diff
  2. demo.py must exit 0 on the unchanged tree and non-zero on the changed tree
  3. the pinned suite (BASELINE stable_pass) must still pass on the changed tree (private HOME)
- 4. apply the patch to /repo, run ./check <prop> --tier quick, undo; record whether it is detected
+ 4. run ./check <prop> against the changed tree; record whether it is detected
+    default: VERIF_REPO=<scratch worktree> from a private copy of /verif (parallel-safe);
+    --on-repo: apply the patch to /repo itself, run the registered check in /verif, undo straight afterwards.
+ --recheck: <src_dir> is an existing /verif/seeded/<id>; only step 4 is repeated and meta.json updated.
 """
 import json, os, shutil, subprocess, sys, xml.etree.ElementTree as ET
 
-src, sid = sys.argv[1], sys.argv[2]
-do_suite = '--no-suite' not in sys.argv
+args = [a for a in sys.argv[1:] if not a.startswith('--')]
+flags = {a for a in sys.argv[1:] if a.startswith('--')}
+src, sid = args[0], args[1]
+recheck = '--recheck' in flags
+do_suite = '--no-suite' not in flags and not recheck
+tier = 'thorough' if '--thorough' in flags else 'quick'
 meta = json.load(open(os.path.join(src, 'meta.json')))
 prop = meta['property']
-wt = '/tmp/seedwt_' + sid.replace('-', '_')
-home = '/tmp/seedhome_' + sid.replace('-', '_')
+tag = sid.replace('-', '_')
+wt = '/tmp/seedwt_' + tag
+home = '/tmp/seedhome_' + tag
+patch = os.path.abspath(os.path.join(src, 'patch.diff'))
 
 
 def sh(cmd, **kw):
@@ -33,23 +42,24 @@ os.makedirs(home)
 sh('git -C /repo worktree remove --force %s' % wt)
 rc, out = sh('git -C /repo worktree add %s HEAD' % wt)
 assert rc == 0, out
-result = {'seed': sid, 'property': prop}
+result = dict(meta.get('confirmed') or {}) if recheck else {}
+result.update(seed=sid, property=prop)
 try:
-    rc, out = sh('git -C %s apply %s' % (wt, os.path.abspath(os.path.join(src, 'patch.diff'))))
+    rc, out = sh('git -C %s apply %s' % (wt, patch))
     result['patch_applies'] = rc == 0
     assert rc == 0, out
-    demo = os.path.abspath(os.path.join(src, 'demo.py'))
-    rc0, o0 = sh('/venv/bin/python %s' % demo, env=envfor('/repo'), cwd=home)
-    rc1, o1 = sh('/venv/bin/python %s' % demo, env=envfor(wt), cwd=home)
-    result['demo_unchanged'] = {'exit': rc0, 'tail': o0[-300:]}
-    result['demo_changed'] = {'exit': rc1, 'tail': o1[-300:]}
-    result['demo_confirms'] = (rc0 == 0 and rc1 != 0)
+    if not recheck:
+        demo = os.path.abspath(os.path.join(src, 'demo.py'))
+        rc0, o0 = sh('/venv/bin/python %s' % demo, env=envfor('/repo'), cwd=home)
+        rc1, o1 = sh('/venv/bin/python %s' % demo, env=envfor(wt), cwd=home)
+        result['demo_unchanged'] = {'exit': rc0, 'tail': o0[-300:]}
+        result['demo_changed'] = {'exit': rc1, 'tail': o1[-300:]}
+        result['demo_confirms'] = (rc0 == 0 and rc1 != 0)
     if do_suite:
         base = json.load(open('/root/.vp/BASELINE.json'))
         xml = os.path.join(home, 'junit.xml')
         cmd = base['cmd'].replace('cd /repo', 'cd ' + wt).replace('<file>', xml)
-        e = envfor(wt)
-        rc, out = sh(cmd, env=e)
+        rc, out = sh(cmd, env=envfor(wt))
         passed = set()
         for tc in ET.parse(xml).getroot().iter('testcase'):
             if not any(c.tag in ('failure', 'error', 'skipped') for c in tc):
@@ -57,36 +67,57 @@ try:
         missing = [t for t in base['stable_pass'] if t not in passed]
         result['suite'] = {'stable_pass': len(base['stable_pass']), 'missing': missing[:10], 'ok': not missing,
                            'tail': out.strip().split('\n')[-1]}
-    # detection by the registered check: on /repo itself (patch applied, undone straight afterwards) with --on-repo,
-    # otherwise on the scratch worktree through VERIF_REPO (same check, lets several evaluations run while /repo is in use)
-    if '--on-repo' in sys.argv:
+    if '--on-repo' in flags:
         st = sh('git -C /repo status --porcelain')[1].strip()
         assert st == '', 'repo not clean: ' + st
-        rc, out = sh('git -C /repo apply %s' % os.path.abspath(os.path.join(src, 'patch.diff')))
+        rc, out = sh('git -C /repo apply %s' % patch)
+        assert rc == 0, out
         try:
-            rc, out = sh('./check %s --tier quick' % prop, cwd='/verif')
+            rc, out = sh('./check %s --tier %s' % (prop, tier), cwd='/verif')
         finally:
             sh('git -C /repo checkout -- .')
-        result['check_target'] = '/repo with the patch applied'
+        result['check_target'] = '/repo with the patch applied (undone afterwards)'
     else:
-        e = dict(os.environ); e['VERIF_REPO'] = wt
-        rc, out = sh('./check %s --tier quick' % prop, cwd='/verif', env=e)
-        result['check_target'] = 'scratch worktree with the patch applied (VERIF_REPO)'
+        vcopy = '/tmp/seedverif_' + tag
+        shutil.rmtree(vcopy, ignore_errors=True)
+        sh('rsync -a --exclude .git --exclude run --exclude seeded /verif/ %s/' % vcopy)
+        e = dict(os.environ)
+        e['VERIF_REPO'] = wt
+        try:
+            rc, out = sh('./check %s --tier %s' % (prop, tier), cwd=vcopy, env=e)
+        finally:
+            rep = os.path.join(vcopy, 'run', 'replays')
+            first_replay = None
+            if os.path.isdir(rep):
+                fs = sorted(os.listdir(rep))
+                if fs:
+                    first_replay = open(os.path.join(rep, fs[0])).read()[:3000]
+            shutil.rmtree(vcopy, ignore_errors=True)
+        out = out.replace(vcopy, '/verif')
+        result['check_target'] = 'scratch worktree with the patch applied (VERIF_REPO, private copy of /verif)'
+        if first_replay:
+            result['first_replay_excerpt'] = first_replay.replace(vcopy, '/verif')
 finally:
     sh('git -C /repo worktree remove --force %s' % wt)
     shutil.rmtree(home, ignore_errors=True)
 viol = [l for l in out.split('\n') if l.startswith('VIOLATION')]
-result['check'] = {'cmd': './check %s --tier quick' % prop, 'exit': rc, 'violation_lines': len(viol),
-                   'first': viol[:2], 'with_failing_input': any('no-failing-input-found' not in v for v in viol)}
+result['check'] = {'cmd': './check %s --tier %s' % (prop, tier), 'exit': rc, 'violation_lines': len(viol),
+                   'first': viol[:2], 'with_failing_input': any('no-failing-input-found' not in v for v in viol),
+                   'summary_line': out.strip().split('\n')[-1][:300]}
 result['detected'] = rc == 1 and bool(viol)
 dst = os.path.join('/verif/seeded', sid)
 os.makedirs(dst, exist_ok=True)
-for f in ('patch.diff', 'demo.py'):
-    shutil.copy(os.path.join(src, f), dst)
-meta_out = {'property': prop, 'summary': meta.get('summary'), 'needs_to_manifest': meta.get('needs_to_manifest'),
-            'author': 'independent sub-agent given only the property text and a scratch worktree',
-            'author_notes': {k: meta[k] for k in meta if k not in ('property', 'summary', 'needs_to_manifest')},
-            'confirmed': result}
+if not recheck:
+    for f in ('patch.diff', 'demo.py'):
+        shutil.copy(os.path.join(src, f), dst)
+    meta_out = {'property': prop, 'summary': meta.get('summary'), 'needs_to_manifest': meta.get('needs_to_manifest'),
+                'author': 'independent sub-agent given only the property text and a scratch worktree',
+                'author_notes': {k: meta[k] for k in meta if k not in ('property', 'summary', 'needs_to_manifest')},
+                'confirmed': result}
+else:
+    meta_out = meta
+    meta_out['confirmed'] = result
 json.dump(meta_out, open(os.path.join(dst, 'meta.json'), 'w'), indent=1)
-print(json.dumps({k: result[k] for k in ('seed', 'demo_confirms', 'detected')}),
-      'suite_ok=%s' % result.get('suite', {}).get('ok'), result['check']['first'][:1])
+print(json.dumps({k: result.get(k) for k in ('seed', 'demo_confirms', 'detected')}),
+      'suite_ok=%s' % result.get('suite', {}).get('ok'), 'rc=%s' % rc, result['check']['first'][:1],
+      result['check']['summary_line'][:160])
